@@ -62,8 +62,8 @@ def byte_plan(cmd, oracle):
             native("native", cmd, bitmap=True),
             native("native-sse2-dispatch", cmd, procs=4, force=1, only="top"),
             native("native-fallback-dispatch", cmd, procs=4, force=2, only="top"),
-            miri("miri-x86_64", cmd, "miri-x86_64", procs=8, of=2400),
-            miri("miri-aarch64-neon", cmd, "miri-aarch64", procs=8, of=2400),
+            miri("miri-x86_64", cmd, "miri-x86_64", procs=8, of=700),
+            miri("miri-aarch64-neon", cmd, "miri-aarch64", procs=8, of=700),
         ],
         "thorough": [
             native("native", cmd, bitmap=True, timeout=7200),
@@ -238,7 +238,7 @@ PLANS["C08"] = iter_plan(
     "exhaustion plus three further calls, size_hint is checked before every next(), clone/into_owned ops are "
     "sprinkled in. Non-trivial = haystack non-empty.",
     "model = greedy non-overlapping sequence computed from all occurrences (KMP), mirrored for rfind_iter; empty needle = every offset",
-    40, 6)
+    200, 6)
 PLANS["C08"]["quick"][0]["require_cells"] = ["pre_went_inert"]
 PLANS["C08"]["thorough"][0]["require_cells"] = ["pre_went_inert"]
 
@@ -267,13 +267,17 @@ PLANS["C09"] = {
     "assumptions": ["out of reach: x86_64 built without SSE2, aarch64 without NEON, aarch64_be, wasm32 simd128 (no executor in this sandbox that the brief lists); stated as not_run in the evidence"],
     "quick": (
         [native("cfg-" + n, "C09", config=c, bitmap=(i == 0), transcript="auto", **a) for i, (n, c, a) in enumerate(C09_NATIVE)]
-        + [miri("cfg-miri-aarch64-neon", "C09", "miri-aarch64", procs=8, of=16, tier="quick", stride=4001, transcript="auto")]
+        + [native("cfgB-default-native", "C09", config="rel", procs=640, tier="miri", transcript="auto"),
+           miri("cfgB-miri-aarch64-neon", "C09", "miri-aarch64", procs=8, of=640, transcript="auto")]
     ),
     "thorough": (
         [native("cfg-" + n, "C09", config=c, bitmap=(i == 0), timeout=7200, transcript="auto", **a) for i, (n, c, a) in enumerate(C09_NATIVE)]
-        + [miri("cfg-miri-aarch64-neon", "C09", "miri-aarch64", procs=16, of=16, tier="quick", stride=601, transcript="auto", timeout=5400),
-           miri("cfg-miri-s390x-be", "C09", "miri-s390x", procs=16, of=16, tier="quick", stride=1201, transcript="auto", timeout=5400),
-           miri("cfg-miri-i686", "C09", "miri-i686", procs=16, of=16, tier="quick", stride=1201, transcript="auto", timeout=5400)]
+        + [native("cfgB-default-native", "C09", config="rel", procs=640, tier="miri", transcript="auto"),
+           miri("cfgB-miri-aarch64-neon", "C09", "miri-aarch64", procs=64, of=640, transcript="auto", timeout=5400),
+           miri("cfgB-miri-s390x-be", "C09", "miri-s390x", procs=64, of=640, transcript="auto", timeout=5400),
+           miri("cfgB-miri-i686", "C09", "miri-i686", procs=48, of=640, transcript="auto", timeout=5400),
+           miri("cfgB-miri-x86_64-sse2", "C09", "miri-x86_64", procs=32, of=640, transcript="auto", timeout=5400),
+           miri("cfgB-miri-x86_64-avx2", "C09", "miri-x86_64-avx2", procs=32, of=640, transcript="auto", timeout=5400)]
     ),
     "not_run": ["x86_64 without SSE2", "aarch64 without NEON", "aarch64_be", "wasm32+simd128"],
 }
@@ -318,7 +322,7 @@ PLANS["C10"] = sub3(
     "settings. The forced-fallback stage makes Searcher::new build the portable prefilter (rank cut-off 250). "
     "Non-trivial = both slices non-empty.",
     "oracle = naive leftmost occurrence / greedy sequence; all configurations must equal it, hence each other",
-    300, 40, ["pre_went_inert", "pre_find_simple", "kind_two_way", "kind_two_way_pre"])
+    1000, 40, ["pre_went_inert", "pre_find_simple", "kind_two_way", "kind_two_way_pre"])
 
 PLANS["C11"] = sub3(
     "C11",
@@ -328,7 +332,7 @@ PLANS["C11"] = sub3(
     "fillers {absent byte, shuffled needle bytes, byte1 only, byte2 only, alternating byte1/byte2, near matches} x first "
     "occurrence planted at boundary offsets (every offset for short haystacks) or absent. Non-trivial = always.",
     "oracle: needle occurs at p => Some(c) with c <= p; None => no occurrence; Some(c) => both pair bytes present at c+index1, c+index2",
-    60, 8)
+    800, 8)
 
 PLANS["C12"] = sub3(
     "C12",
@@ -339,7 +343,7 @@ PLANS["C12"] = sub3(
     "last-32-bytes-equal windows for Rabin-Karp), seeded random pairs, explicit index pairs. Non-trivial = both "
     "slices non-empty.",
     "oracle = naive leftmost / rightmost occurrence; constructors: shiftor Some iff len<=15, packedpair::new None iff len<2",
-    600, 64, ["tw_fwd_small", "tw_fwd_large", "tw_rev_small", "tw_rev_large", "rk_fwd_confirm_fail", "pp_tail_hit"])
+    1000, 64, ["tw_fwd_small", "tw_fwd_large", "tw_rev_small", "tw_rev_large", "rk_fwd_confirm_fail", "pp_tail_hit"])
 
 # ---------------------------------------------------------------------------
 # C13
@@ -509,8 +513,8 @@ PLANS["C18"] = {
     "quick": [
         native("native", "C18", bitmap=True),
         native("native-dbg", "C18", config="dbg", procs=8),
-        miri("miri-x86_64", "C18", "miri-x86_64", procs=4, of=16),
-        miri("miri-s390x-be", "C18", "miri-s390x", procs=4, of=16),
+        miri("miri-x86_64", "C18", "miri-x86_64", procs=4, of=32),
+        miri("miri-s390x-be", "C18", "miri-s390x", procs=4, of=32),
     ],
     "thorough": [
         native("native", "C18", bitmap=True, timeout=3600),
@@ -562,14 +566,17 @@ def post_c09(out, plan, vlib):
     """Compare every configuration's transcript with the reference entry by entry."""
     import glob
     import os as _os
-    ref_stage = "cfg-default-avx2"
-    ref = {}
-    for p in glob.glob(_os.path.join(out.tmpdir, "tx.%s.*" % ref_stage)):
-        ref[int(p.rsplit(".", 1)[1])] = _load_tx(p)
+    refs = {}
+    for ref_stage in ("cfg-default-avx2", "cfgB-default-native"):
+        refs[ref_stage] = {}
+        for p in glob.glob(_os.path.join(out.tmpdir, "tx.%s.*" % ref_stage)):
+            refs[ref_stage][int(p.rsplit(".", 1)[1])] = _load_tx(p)
     summary = {}
     compared = 0
     for st in plan[out.tier]:
         name = st["name"]
+        ref_stage = "cfgB-default-native" if name.startswith("cfgB-") else "cfg-default-avx2"
+        ref = refs[ref_stage]
         files = glob.glob(_os.path.join(out.tmpdir, "tx.%s.*" % name))
         entries = 0
         status = "identical"
